@@ -11,15 +11,15 @@ import (
 )
 
 type Env struct {
-	u      *Unit
-	fr     *Frame
-	st     *State
-	old    *State
-	vars   map[string]Val
-	this   *Scalar
-	callee bool // evaluating a callee's contract: do not resolve caller locals
+	u          *Unit
+	fr         *Frame
+	st         *State
+	old        *State
+	vars       map[string]Val
+	this       *Scalar
+	callee     bool // evaluating a callee's contract: do not resolve caller locals
 	rootAssume bool
-	depth  int
+	depth      int
 }
 
 func (u *Unit) newEnv(fr *Frame, st *State, old *State) *Env {
@@ -528,9 +528,14 @@ func (u *Unit) evalCall(env *Env, e *Expr) Val {
 			if inner, ok := sc.Aux.(*Scalar); ok {
 				sc = inner
 			}
-			if isOwnAlloc(sc.T) && len(u.allocMarks) > 0 {
-				var k int
-				if _, err := fmt.Sscanf(sc.T.S, "(- %d)", &k); err == nil && k > u.allocMarks[len(u.allocMarks)-1] {
+			if as := allocsOf(sc); as != nil && len(u.allocMarks) > 0 {
+				// nil, or one of the allocations made since the loop was cut
+				mark := u.allocMarks[len(u.allocMarks)-1]
+				all := true
+				for _, k := range as.ks {
+					all = all && k > mark
+				}
+				if all {
 					return &Scalar{T: TTrue, Typ: types.Typ[types.Bool]}
 				}
 			}
@@ -663,37 +668,37 @@ func (u *Unit) evalCall(env *Env, e *Expr) Val {
 
 // builtinUFuns are the uninterpreted symbols the engine itself uses.
 var builtinUFuns = map[string]*UFun{
-	"mk":          {"mk", []Sort{SInt, SInt}, SInt},
-	"typeof":      {"typeof", []Sort{SInt}, SInt},
-	"pay":         {"pay", []Sort{SInt}, SInt},
-	"real_id":     {"real_id", []Sort{SReal}, SInt},
-	"id_real":     {"id_real", []Sort{SInt}, SReal},
-	"ErrIs":       {"ErrIs", []Sort{SInt, SInt}, SBool},
-	"ErrAs":       {"ErrAs", []Sort{SInt, SInt}, SBool},
-	"ErrAsVal":    {"ErrAsVal", []Sort{SInt, SInt}, SInt},
-	"ErrMsg":      {"ErrMsg", []Sort{SInt}, SInt},
-	"Unwrap":      {"Unwrap", []Sort{SInt}, SInt},
-	"IsCtxErr":    {"IsCtxErr", []Sort{SInt}, SBool},
-	"StrLower":    {"StrLower", []Sort{SInt}, SInt},
-	"StrContains": {"StrContains", []Sort{SInt, SInt}, SBool},
-	"LenOf":       {"LenOf", []Sort{SInt}, SInt},
-	"CapOf":       {"CapOf", []Sort{SInt}, SInt},
-	"mapget":      {"mapget", []Sort{SInt, SInt}, SInt},
-	"maphas":      {"maphas", []Sort{SInt, SInt}, SBool},
-	"Marshal":     {"Marshal", []Sort{SInt, SInt, SInt}, SInt},
-	"IDOf":        {"IDOf", []Sort{SInt}, SInt},
-	"TokenOf":     {"TokenOf", []Sort{SInt}, SInt},
-	"PrioOf":      {"PrioOf", []Sort{SInt}, SInt},
-	"ParseOK":     {"ParseOK", []Sort{SInt}, SBool},
-	"IDPresent":   {"IDPresent", []Sort{SInt}, SBool},
+	"mk":           {"mk", []Sort{SInt, SInt}, SInt},
+	"typeof":       {"typeof", []Sort{SInt}, SInt},
+	"pay":          {"pay", []Sort{SInt}, SInt},
+	"real_id":      {"real_id", []Sort{SReal}, SInt},
+	"id_real":      {"id_real", []Sort{SInt}, SReal},
+	"ErrIs":        {"ErrIs", []Sort{SInt, SInt}, SBool},
+	"ErrAs":        {"ErrAs", []Sort{SInt, SInt}, SBool},
+	"ErrAsVal":     {"ErrAsVal", []Sort{SInt, SInt}, SInt},
+	"ErrMsg":       {"ErrMsg", []Sort{SInt}, SInt},
+	"Unwrap":       {"Unwrap", []Sort{SInt}, SInt},
+	"IsCtxErr":     {"IsCtxErr", []Sort{SInt}, SBool},
+	"StrLower":     {"StrLower", []Sort{SInt}, SInt},
+	"StrContains":  {"StrContains", []Sort{SInt, SInt}, SBool},
+	"LenOf":        {"LenOf", []Sort{SInt}, SInt},
+	"CapOf":        {"CapOf", []Sort{SInt}, SInt},
+	"mapget":       {"mapget", []Sort{SInt, SInt}, SInt},
+	"maphas":       {"maphas", []Sort{SInt, SInt}, SBool},
+	"Marshal":      {"Marshal", []Sort{SInt, SInt, SInt}, SInt},
+	"IDOf":         {"IDOf", []Sort{SInt}, SInt},
+	"TokenOf":      {"TokenOf", []Sort{SInt}, SInt},
+	"PrioOf":       {"PrioOf", []Sort{SInt}, SInt},
+	"ParseOK":      {"ParseOK", []Sort{SInt}, SBool},
+	"IDPresent":    {"IDPresent", []Sort{SInt}, SBool},
 	"TokenPresent": {"TokenPresent", []Sort{SInt}, SBool},
-	"PrioPresent": {"PrioPresent", []Sort{SInt}, SBool},
-	"ParseMap":    {"ParseMap", []Sort{SInt}, SInt},
-	"ParseMapOK":  {"ParseMapOK", []Sort{SInt}, SBool},
-	"FreshTok":    {"FreshTok", []Sort{SInt}, SBool},
-	"CtxParent":   {"CtxParent", []Sort{SInt}, SInt},
+	"PrioPresent":  {"PrioPresent", []Sort{SInt}, SBool},
+	"ParseMap":     {"ParseMap", []Sort{SInt}, SInt},
+	"ParseMapOK":   {"ParseMapOK", []Sort{SInt}, SBool},
+	"FreshTok":     {"FreshTok", []Sort{SInt}, SBool},
+	"CtxParent":    {"CtxParent", []Sort{SInt}, SInt},
 	"CancelTarget": {"CancelTarget", []Sort{SInt}, SInt},
-	"CtxTimeout":  {"CtxTimeout", []Sort{SInt}, SInt},
-	"DoneCh":      {"DoneCh", []Sort{SInt}, SInt},
-	"Pow":         {"Pow", []Sort{SReal, SReal}, SReal},
+	"CtxTimeout":   {"CtxTimeout", []Sort{SInt}, SInt},
+	"DoneCh":       {"DoneCh", []Sort{SInt}, SInt},
+	"Pow":          {"Pow", []Sort{SReal, SReal}, SReal},
 }
